@@ -158,6 +158,9 @@ def ctoken(t):
 # ----------------------------------------------------------------------------------------------------------------
 # batches: one Coq case = one helper application on a list of inputs and the expected text of all of them
 
+coqcases_imports = ['Tokenize Parser Reader']
+
+
 class Batches:
     def __init__(self, ck, name, extra=''):
         self.ck = ck
@@ -184,7 +187,7 @@ class Batches:
             return True
         size = sum(len(c) for c in self.cases) / len(self.cases)
         shard = max(20, int(110000 / max(size, 1)))
-        ok, failing, log = coqcases.run_cases(self.name, 'Tokenize Parser Reader', self.cases, extra=self.extra, shard=shard, timeout=1500)
+        ok, failing, log = coqcases.run_cases(self.name, coqcases_imports[0], self.cases, extra=self.extra, shard=shard, timeout=1500)
         bad = []
         if ok and failing and single is not None:
             # second pass: the elements of the first failing batches one by one
@@ -194,7 +197,7 @@ class Batches:
                 for x, e in zip(ins, exp):
                     cases2.append(f'{helper} [{single(x)}] {cstr(e)}')
                     meta2.append((x, e))
-            ok2, failing2, _ = coqcases.run_cases(self.name + '_pin', 'Tokenize Parser Reader', cases2, extra=self.extra, shard=400, timeout=900)
+            ok2, failing2, _ = coqcases.run_cases(self.name + '_pin', coqcases_imports[0], cases2, extra=self.extra, shard=400, timeout=900)
             if ok2:
                 bad = [meta2[i] for i in failing2[:20]]
         elif failing:
@@ -681,6 +684,200 @@ def corr_reader(ck):
 
 
 # ----------------------------------------------------------------------------------------------------------------
+# 5b. read_spell_denote: generated abstract syntax trees; Coq `denote` / `spell` against the real parser on the spelled tokens,
+#     and the graph the tree means (computed here, independently) against smiles() and RDKit on the spelled text
+
+AST_ATOMS = ['C', 'C', 'C', 'N', 'O', 'S', 'Cl', 'F', 'c', 'c', 'n', 'o', '[nH]', '[NH4+]', '[13CH3]', '[O-]', '[C@H]', '[C@@]', '[C:2]', '[Fe+2]', '[se]', '[2H]']
+AST_BONDS = [(None, ''), (None, ''), (None, ''), ((1, 1), '-'), ((1, 2), '='), ((1, 3), '#'), ((1, 4), ':'), ((9, True), '/'), ((9, False), '\\'), ((4, None), '.')]
+
+
+def ast_atom(text):
+    from chython.files.daylight.tokenize import smiles_tokenize
+    return smiles_tokenize(text)[0]
+
+
+def gen_ast(rng, maxn=9, bad=0.08):
+    """tree = [atom text, rings [(bond, k)], kids [(bond, tree)]]; ring digits are put on random pairs of nodes (preorder), a few
+    are left unpaired / given clashing bonds on purpose"""
+    n = rng.randint(1, maxn)
+    nodes = [[rng.choice(AST_ATOMS), [], []]]
+    for _ in range(n - 1):
+        parent = rng.choice(nodes[-3:]) if rng.random() < 0.7 else rng.choice(nodes)
+        node = [rng.choice(AST_ATOMS), [], []]
+        b = rng.choice(AST_BONDS)
+        parent[2].insert(rng.randint(0, len(parent[2])), (b, node))
+        nodes.append(node)
+    pre = []
+
+    def walk(t):
+        pre.append(t)
+        for _, c in t[2]:
+            walk(c)
+    walk(nodes[0])
+    k = rng.choice((1, 1, 1, 9, 10))
+    for _ in range(rng.choice((0, 0, 1, 1, 2, 3))):
+        if len(pre) < 2:
+            break
+        i, j = sorted(rng.sample(range(len(pre)), 2))
+        b1 = rng.choice(AST_BONDS[:9]) if rng.random() < 0.35 else AST_BONDS[0]
+        b2 = rng.choice(AST_BONDS[:9]) if rng.random() < 0.25 else AST_BONDS[0]
+        pre[i][1].append((b1, k))
+        if rng.random() > bad:
+            pre[j][1].append((b2, k))
+        k += 1
+    if rng.random() < bad:
+        rng.choice(pre)[1].append((AST_BONDS[9], 5))      # dot before a ring digit
+    return nodes[0]
+
+
+def ast_tokens(t):
+    out = [ast_atom(t[0])]
+    for (b, _), k in t[1]:
+        if b is not None:
+            out.append(b)
+        out.append((6, k))
+    kids = t[2]
+    for i, ((b, _), c) in enumerate(kids):
+        sub = ([b] if b is not None else []) + ast_tokens(c)
+        out += sub if i == len(kids) - 1 else [(2, None)] + sub + [(3, None)]
+    return out
+
+
+def ast_text(t):
+    s = t[0] + ''.join(bt + ring_digits(k) for (_, bt), k in t[1])
+    kids = t[2]
+    for i, ((_, bt), c) in enumerate(kids):
+        sub = bt + ast_text(c)
+        s += sub if i == len(kids) - 1 else '(' + sub + ')'
+    return s
+
+
+def ast_coq(t):
+    def cb(b):
+        return 'None' if b is None else f'(Some {ctoken(b)})'
+    ty, a = ast_atom(t[0])
+    at = ctoken((ty, a))          # "(ty, PAtom (mkAt ...))"
+    at = at[at.index('PAtom') + 6:-1]
+    return (f'(Node {cz(ty)} {at} {clist(f"({cb(b)}, {cz(k)})" for (b, _), k in t[1])} '
+            f'{clist(f"({cb(b)}, {ast_coq(c)})" for (b, _), c in t[2])})')
+
+
+def ast_graph(t):
+    """the graph the tree means, computed without any parser: atoms in preorder; an edge from every node to its parent unless the
+    dot is written; ring digits pair up in preorder; order = the written symbol, else aromatic between two aromatic atoms, else single.
+    None when the tree has no meaning (unpaired digit, clashing symbols, digit after a dot, loop, double edge)"""
+    atoms, edges, openr = [], {}, {}
+
+    def order_of(b, i, j):
+        if b is not None and b[0] == 1:
+            return b[1]
+        return 4 if atoms[i][0] == atoms[j][0] == 8 else 1
+
+    def add(i, j, o):
+        key = (min(i, j), max(i, j))
+        if i == j or key in edges:
+            raise ValueError
+        edges[key] = o
+
+    def walk(t, parent, b):
+        me = len(atoms)
+        atoms.append(ast_atom(t[0]))
+        if parent is not None and not (b is not None and b[0] == 4):
+            add(me, parent, order_of(b, me, parent))
+        for (rb, _), k in t[1]:
+            if rb is not None and rb[0] == 4:
+                raise ValueError
+            if k in openr:
+                i, ob = openr.pop(k)
+                e1 = ob[1] if ob is not None and ob[0] == 1 else None
+                e2 = rb[1] if rb is not None and rb[0] == 1 else None
+                if e1 is not None and e2 is not None and e1 != e2:
+                    raise ValueError
+                if (e1 or e2) and (e1 or e2) != 1 and ((ob is not None and ob[0] == 9) or (rb is not None and rb[0] == 9)):
+                    raise ValueError
+                add(me, i, (e1 or e2) if (e1 or e2) else order_of(None, me, i))
+            else:
+                openr[k] = (me, rb)
+        for (cb, _), c in t[2]:
+            walk(c, me, cb)
+    try:
+        walk(t, None, None)
+    except ValueError:
+        return None
+    if openr:
+        return None
+    return [a[1]['element'] for a in atoms], edges
+
+
+def corr_denote(ck):
+    from chython.files.daylight.parser import parser
+    from chython.files.daylight.tokenize import smiles_tokenize
+    from chython.containers import MoleculeContainer
+    rng = random.Random(f'{ck.seed}:c03ast')
+    n = 500 if ck.tier == 'quick' else 6000
+    trees = [gen_ast(rng) for _ in range(n)]
+    trees += [['C', [], []], ['C', [((None, ''), 1)], []], ['C', [((None, ''), 1), ((None, ''), 1)], []],
+              ['c', [((None, ''), 1)], [((None, ''), ['c', [], [((None, ''), ['c', [((None, ''), 1)], []])]])]],
+              ['C', [], [(((4, None), '.'), ['C', [], []]), (((1, 2), '='), ['O', [], []])]]]
+    bt = Batches(ck, 'c03ast', extra='Import ListNotations. Open Scope Z_scope.')
+    items = {True: [], False: []}
+    spelled = []
+    n_tok_mismatch = 0
+    for t in trees:
+        toks = ast_tokens(t)
+        text = ast_text(t)
+        # the spelling in tokens is what smiles_tokenize reads from the spelling in characters
+        if guarded(lambda: smiles_tokenize(text), stokens) != stokens(ast_tokens(t)):
+            n_tok_mismatch += 1
+            ck.unchecked('ast spelling: tokens of the text differ from the token spelling', text)
+        spelled.append((t, stokens(ast_tokens(t))))
+        okish = False
+        for strong in (True, False):
+            e = guarded(lambda: parser(ast_tokens(t), strong), sparsed)
+            items[strong].append((t, e))
+            okish = okish or not e.startswith('!')
+            ck.count('denote:' + ('Ok' if not e.startswith('!') else e))
+        ck.case(('ast', text), nontrivial=okish)
+        # the meaning of the tree, computed independently, against the real reader and RDKit
+        g = ast_graph(t)
+        mol, exc = classify(text)
+        if exc is not None and not isinstance(exc, ValueError):
+            report_crash(ck, text, {}, exc)
+        if g is not None and '[2H]' not in text:
+            if not isinstance(mol, MoleculeContainer):
+                if True:
+                    ck.counterexample(f'ast-rejected:{text}', 'the spelling of a meaningful syntax tree is rejected', {'smiles': text},
+                                      f'{type(exc).__name__}: {exc}', 'the molecule the tree denotes', 'structural denotation of the generated tree',
+                                      replay_py=f"from chython import smiles\nprint(smiles({text!r}))")
+            else:
+                els, edges = g
+                got_els = [a.atomic_symbol for _, a in mol.atoms()]
+                _, got_edges = chython_graph(mol)
+                if got_els != els or got_edges != edges:
+                    ck.counterexample(f'ast-graph:{text}', 'smiles() builds another graph than the syntax tree denotes', {'smiles': text},
+                                      {'atoms': got_els, 'bonds': sorted(got_edges.items())}, {'atoms': els, 'bonds': sorted(edges.items())},
+                                      'structural denotation of the generated tree',
+                                      replay_py=f"from chython import smiles\nm = smiles({text!r})\nprint([(n, k, int(b)) for n, k, b in m.bonds()])")
+            rdkit_compare(ck, text, 'ast')
+        elif g is None and isinstance(mol, MoleculeContainer) and not mol.meta.get('chython_parsing_log'):
+            ck.counterexample(f'ast-accepted:{text}', 'the spelling of a syntax tree without meaning (unpaired / clashing ring digit) is accepted',
+                              {'smiles': text}, str(mol), 'IncorrectSmiles', 'structural denotation of the generated tree',
+                              replay_py=f"from chython import smiles\nprint(smiles({text!r}))")
+    for strong in (True, False):
+        bt.add_chunked(f'b_denote {cbool(strong)}', items[strong], ast_coq, chunk=20)
+    bt.add_chunked('b_spell', spelled, ast_coq, chunk=20)
+    ck.extra['ast_trees'] = len(trees)
+    ck.sample({'ast_text': ast_text(trees[0]), 'denote': items[True][0][1]})
+    saved = coqcases_imports[0]
+    coqcases_imports[0] = 'Tokenize Parser Reader SmilesAst'
+    try:
+        return bt.run(f'parser(spelled tokens) == Coq denote(tree) and spelling == Coq spell(tree) on {len(trees)} generated syntax trees, both modes',
+                      single=ast_coq)
+    finally:
+        coqcases_imports[0] = saved
+
+
+# ----------------------------------------------------------------------------------------------------------------
 # 6. search on the real code: exception classes on a malformed stream; RDKit reading of the same text
 
 def classify(s, **kw):
@@ -1007,4 +1204,4 @@ def run(ck):
     ck.extra['tied'] = tied
 
 
-STEPS = [('tok', corr_tokenize), ('atom', corr_atom), ('parse', corr_parser), ('map', corr_mapping), ('read', corr_reader), ('search', search)]
+STEPS = [('tok', corr_tokenize), ('atom', corr_atom), ('parse', corr_parser), ('map', corr_mapping), ('read', corr_reader), ('ast', corr_denote), ('search', search)]
